@@ -127,6 +127,7 @@ int rt_blocked_woken (int t);
 extern FILE *rt_log;                       /* if non-NULL each granted step is appended as one JSON line by the harness */
 const char *rt_kind_name (int kind);
 void rt_touch (const void *addr, int is_write);
+extern long rt_watchdog_hits;
 int rt_fail_pending (void);
 int rt_should_save (const char *oracle);
 long rt_soft_hits (void);
